@@ -424,6 +424,16 @@ pub fn run(tier: Tier) -> Report {
         .collect();
     parts.push(json!({"part": "binary-conformance", "sessions": conf.len(), "failing": fc.len()}));
     fails.extend(fc);
+    // many documents at once: 40 (quick) / 200 (thorough), in process and against the binary
+    for binary in [false, true] {
+        let n = tier.pick(40, 200);
+        execs.fetch_add(1, Ordering::Relaxed);
+        let bad = eval_many_documents(n, binary);
+        parts.push(json!({"part": "many-documents", "documents": n, "binary": binary, "failing": bad.is_some() as u32}));
+        if let Some((k, d)) = bad {
+            fails.push(mk(format!("ordering:{}many-documents:{}", if binary { "binary:" } else { "" }, k), d, json!({"many_documents": {"n": n, "binary": binary}, "mode": if binary { "process" } else { "in-process" }})));
+        }
+    }
     // a slow client: about half a MB of responses, nothing is read for 1 s (the pipe fills up, the
     // responder blocks, the channels fill up, the reader loop blocks), then 2 KiB every 5 ms;
     // every response must arrive, in order, also those queued when shutdown/exit are processed
@@ -485,6 +495,76 @@ pub fn run(tier: Tier) -> Report {
     rep
 }
 
+/// Many documents at once (beyond the two or three of the scenario alphabet): `n` documents
+/// are opened, each is changed, each is asked for its folding ranges (round robin, so that
+/// consecutive messages always concern different documents), half of them are closed and
+/// asked again; everything in one write. Every answer must describe its own document.
+pub fn eval_many_documents(n: usize, binary: bool) -> Option<(String, String)> {
+    let uri = |k: usize| format!("file:///doc{}.spl", k);
+    let proc_text = |k: usize, i: usize| format!("proc p{}x{}() {{\n}}\n", k, i);
+    let mut s = Session::new(true);
+    for k in 0..n {
+        let t: String = (0..k % 3 + 1).map(|i| proc_text(k, i)).collect();
+        s.open(&uri(k), &t);
+    }
+    for k in 0..n {
+        s.change(&uri(k), json!([{"range": {"start": {"line": 0, "character": 0}, "end": {"line": 0, "character": 0}}, "text": proc_text(k, 99)}]));
+    }
+    let mut want: Vec<(i64, Value)> = vec![];
+    for k in 0..n {
+        let id = s.request(METHODS[0], req_params(METHODS[0], &uri(k)));
+        let folds: Vec<Value> = (0..k % 3 + 2).map(|i| json!({"startLine": 2 * i, "endLine": 2 * i + 1})).collect();
+        want.push((id, json!(folds)));
+    }
+    for k in (0..n).step_by(2) {
+        s.close(&uri(k));
+    }
+    for k in 0..n {
+        let id = s.request(METHODS[0], req_params(METHODS[0], &uri(k)));
+        let folds: Vec<Value> = if k % 2 == 0 { vec![] } else { (0..k % 3 + 2).map(|i| json!({"startLine": 2 * i, "endLine": 2 * i + 1})).collect() };
+        // a closed document is unknown: null (or no ranges)
+        want.push((id, if k % 2 == 0 { Value::Null } else { json!(folds) }));
+    }
+    s.msgs.push(request(100_000, "shutdown", Value::Null));
+    s.msgs.push(notification("exit", Value::Null));
+    let frames: Vec<Value> = if binary {
+        let bytes: Vec<u8> = s.msgs.iter().flat_map(frame).collect();
+        let o = procdrv::run_chunks(&[bytes], false, Duration::from_secs(30));
+        if o.timed_out {
+            return Some(("hang".into(), "no exit within 30 s".into()));
+        }
+        if let Some(e) = o.frame_error {
+            return Some(("malformed-output".into(), e));
+        }
+        o.frames
+    } else {
+        let o = s.run();
+        if let Some(e) = o.error.clone().or(o.frame_error.clone()) {
+            return Some(("error".into(), e));
+        }
+        o.frames
+    };
+    let answered: Vec<i64> = frames.iter().filter(|f| f.get("method").is_none()).filter_map(|f| f["id"].as_i64()).collect();
+    let ids: Vec<i64> = std::iter::once(0).chain(want.iter().map(|w| w.0)).chain(std::iter::once(100_000)).collect();
+    if answered != ids {
+        return Some(("response-order".into(), format!("{} responses, expected {} (in request order)", answered.len(), ids.len())));
+    }
+    for (id, w) in &want {
+        let got = frames.iter().find(|f| f.get("method").is_none() && f["id"].as_i64() == Some(*id)).map(|f| f["result"].clone()).unwrap_or(json!("missing"));
+        let norm = |v: &Value| -> Value {
+            match v {
+                Value::Null => json!([]),
+                Value::Array(a) => json!(a.iter().map(|x| json!({"startLine": x["startLine"], "endLine": x["endLine"]})).collect::<Vec<_>>()),
+                o => o.clone(),
+            }
+        };
+        if norm(&got) != norm(w) {
+            return Some(("stale-or-foreign-answer".into(), format!("request {}: got {}, expected {}", id, got, w)));
+        }
+    }
+    None
+}
+
 /// a slow client (see run()): Some((kind, detail)) on failure, and the number of output bytes
 pub fn eval_slow_reader(n_procs: usize, n_reqs: usize, graceful: bool) -> (Option<(String, String)>, usize) {
     let text: String = (0..n_procs).map(|i| format!("proc p{}() {{\n}}\n", i)).collect();
@@ -517,6 +597,11 @@ pub fn eval_slow_reader(n_procs: usize, n_reqs: usize, graceful: bool) -> (Optio
 }
 
 pub fn replay(case: &Value) -> Vec<Failure> {
+    if let Some(md) = case.get("many_documents") {
+        return eval_many_documents(md["n"].as_u64().unwrap_or(40) as usize, md["binary"].as_bool().unwrap_or(true))
+            .map(|(k, d)| vec![Failure { key: format!("ordering:many-documents:{}", k), case: case.clone(), detail: d }])
+            .unwrap_or_default();
+    }
     if let Some(sr) = case.get("slow_reader") {
         let (bad, _) = eval_slow_reader(sr["procedures"].as_u64().unwrap_or(150) as usize, sr["requests"].as_u64().unwrap_or(150) as usize, sr["graceful"].as_bool().unwrap_or(true));
         return bad.map(|(k, d)| vec![Failure { key: format!("ordering:binary:slow-reader:{}", k), case: case.clone(), detail: d }]).unwrap_or_default();
